@@ -93,6 +93,18 @@ def diverged(res):
       np.abs(qd).max() > 1e4 if qd.size else False)
 
 
+def tame(res):
+  q, qd = res[0], res[1]
+  return bool(np.isfinite(q).all() and np.isfinite(qd).all()
+              and (np.abs(qd).max() < 1e3 if qd.size else True))
+
+
+def one_sided_divergence(res_a, res_b):
+  """One representation blows up (non-finite or |qd| > 1e4) while the other
+  stays tame (|qd| < 1e3): that is a discrepancy, not a shared divergence."""
+  return (diverged(res_a) and tame(res_b)) or (diverged(res_b) and tame(res_a))
+
+
 def compare_by_name(mj_a, res_a, mj_b, res_b):
   """Max discrepancy of per-joint and per-link results matched by name."""
   qa, qda, pa, ra, va, wa = res_a[:6]
@@ -200,6 +212,12 @@ def run(job, mon):
           rb = call(fn, q2, qd2, a, qrot(rot, g0))
           if diverged(ra) or diverged(rb):
             mon.count('rigid_diverged:' + pname)
+            if one_sided_divergence(ra, rb):
+              mon.check('rigid_transform:' + pname, False,
+                        lambda: dict(model=c, seed=job['seed'],
+                                     pipeline=pname, xml=xml, q=q, qd=qd,
+                                     reason='only one of the two frames '
+                                     'diverges'))
             continue
           qa_, qda_, pa, rota, va, wa = ra[:6]
           qb_, qdb_, pb, rotb, vb, wb = rb[:6]
@@ -268,6 +286,11 @@ def run(job, mon):
         rb = call(fb, qb, qdb, cb, np.zeros(3))
         if diverged(ra) or diverged(rb):
           mon.count('order_diverged:' + pname)
+          if one_sided_divergence(ra, rb):
+            mon.check('sibling_order:' + pname, False,
+                      lambda: dict(model=c, seed=job['seed'], pipeline=pname,
+                                   xml_a=xml_a, xml_b=xml_b, q=q, qd=qd,
+                                   reason='only one sibling order diverges'))
           continue
         if pname == 'generalized' and (ra[6] > 0 or rb[6] > 0):
           # the iterative constraint solver is order dependent at round-off
@@ -322,6 +345,19 @@ def run(job, mon):
         rx = call(runner(sx, p, nsteps), qx, qdx, cx, np.zeros(3))
         if diverged(rx) or diverged(rm):
           mon.count('components_diverged:' + pname)
+          # the merged run contains the other component too: compare only
+          # this component's coordinates of the merged run
+          jx_ = joint_slices(sx.mj_model)
+          sub_q = np.concatenate([rm[0][jm[n][0]] for n in jx_]) if jx_ else (
+              np.zeros(0))
+          sub_qd = np.concatenate([rm[1][jm[n][1]] for n in jx_]) if jx_ else (
+              np.zeros(0))
+          if one_sided_divergence(rx, (sub_q, sub_qd)):
+            mon.check('components:' + pname, False,
+                      lambda: dict(model=c, seed=job['seed'], pipeline=pname,
+                                   component=tag, xml_merged=xmls[2],
+                                   reason='the component diverges in only one '
+                                   'of merged / solo'))
           continue
         if pname == 'generalized' and (rm[6] > 0 or rx[6] > 0):
           mon.count('components_generalized_constraint_active')
